@@ -4,14 +4,15 @@ Layer A — THEOREMS for the Debian scheme.
   * `vercmp_eq_key`   (C03) `compare_version_objects` = dpkg order of the keys, on all `Raw`
   * `rank_eq_dpkgOrder`     the spec's character order is dpkg's `order()` on the Debian alphabet
   * `TransCmp vercmp`       from the refinement
-  * `verOps_lt/gt/le/ge`    (C02) hold on all pairs; `verOps_eq`: `==` is TEXTUAL equality
-  * `verOps_lawful_partial`, `verOps_lawful_counterexample` (`1.0` vs `1.00`)
-  * `eq_imp_hash`     (C12), `hash_equiv_counterexample`
+  * `verOps_lawful`   (C02) all six operators are the ones induced by `vercmp`, on all `Raw`
+  * `eq_imp_hash`     (C12) `==` versions have equal hash keys, on all `Raw`
+                            (through `padLex_eq_stripTrail` of `Univers/Basic/PadLexEq.lean`)
   * `construct_wf`          `construct` establishes `WellFormed`
   * `str_roundtrip_partial`, `str_roundtrip_counterexample` (C11; `1-0-0` prints as `1-0`)
 -/
 import Univers.Scheme.DebSpec
 import Univers.Vers.Spec
+import Univers.Basic.PadLexEq
 
 namespace Univers.Deb
 
@@ -330,81 +331,26 @@ theorem rank_eq_dpkgOrder : ∀ x ∈ nonDigitAlphabet, ∀ y ∈ nonDigitAlphab
 
 /-! ### C02: the six operators of `DebianVersion` -/
 
-theorem tuple_inj {a b : Raw} : tuple a = tuple b ↔ a = b := by
-  cases a; cases b; simp [tuple]
+theorem verOps_eq (a b : Raw) : verOps.eq a b = (vercmp a b == .eq) := rfl
 
-theorem tuple_beq (a b : Raw) : (tuple a == tuple b) = decide (a = b) := by
-  by_cases h : a = b
-  · subst h; simp
-  · have : tuple a ≠ tuple b := fun e => h (tuple_inj.mp e)
-    simp [h, this]
+theorem verOps_ne (a b : Raw) : verOps.ne a b = (vercmp a b != .eq) := rfl
 
-theorem verOps_eq (a b : Raw) : verOps.eq a b = decide (a = b) := by
-  simp [verOps, Py.attrsOps, valOps, tuple_beq]
-
-theorem verOps_ne (a b : Raw) : verOps.ne a b = !decide (a = b) := by
-  simp [verOps, Py.attrsOps, valOps, tuple_beq]
-
-/-- `<`, `>`, `<=`, `>=` agree with the three-way comparison on ALL pairs (the `==` test that
-attrs' tuple comparison performs first does not change them, because `vercmp a a = eq`). -/
 theorem verOps_lt (a b : Raw) : verOps.lt a b = (vercmp a b == .lt) := by
-  by_cases h : a = b
-  · subst h; simp [verOps, Py.attrsOps, valOps, vercmp_self]
-  · have : (tuple a == tuple b) = false := by
-      cases a; cases b; simp_all [tuple]
-    simp [verOps, Py.attrsOps, valOps, this]
+  simp only [verOps, Py.attrsOps, valOps]; cases vercmp a b <;> rfl
 
 theorem verOps_gt (a b : Raw) : verOps.gt a b = (vercmp a b == .gt) := by
-  by_cases h : a = b
-  · subst h; simp [verOps, Py.attrsOps, valOps, vercmp_self]
-  · have : (tuple a == tuple b) = false := by
-      cases a; cases b; simp_all [tuple]
-    simp [verOps, Py.attrsOps, valOps, this]
+  simp only [verOps, Py.attrsOps, valOps]; cases vercmp a b <;> rfl
 
 theorem verOps_le (a b : Raw) : verOps.le a b = (vercmp a b != .gt) := by
-  by_cases h : a = b
-  · subst h; simp [verOps, Py.attrsOps, valOps, vercmp_self]
-  · have : (tuple a == tuple b) = false := by
-      cases a; cases b; simp_all [tuple]
-    simp [verOps, Py.attrsOps, valOps, this]
+  simp only [verOps, Py.attrsOps, valOps]; cases vercmp a b <;> rfl
 
 theorem verOps_ge (a b : Raw) : verOps.ge a b = (vercmp a b != .lt) := by
-  by_cases h : a = b
-  · subst h; simp [verOps, Py.attrsOps, valOps, vercmp_self]
-  · have : (tuple a == tuple b) = false := by
-      cases a; cases b; simp_all [tuple]
-    simp [verOps, Py.attrsOps, valOps, this]
+  simp only [verOps, Py.attrsOps, valOps]; cases vercmp a b <;> rfl
 
-/-- C02 on any set of versions on which order-equivalence is identity (for instance: a set
-of canonically spelled versions).  `==`/`!=` are textual, so this is the largest kind of domain
-on which all six operators are the ones induced by the comparison. -/
-theorem verOps_lawful_partial (P : Raw → Prop)
-    (hP : ∀ a b, P a → P b → vercmp a b = .eq → a = b) :
-    Lawful (V := {r : Raw // P r})
-      { lt := fun a b => verOps.lt a.1 b.1, le := fun a b => verOps.le a.1 b.1,
-        gt := fun a b => verOps.gt a.1 b.1, ge := fun a b => verOps.ge a.1 b.1,
-        eq := fun a b => verOps.eq a.1 b.1, ne := fun a b => verOps.ne a.1 b.1 }
-      (fun a b => vercmp a.1 b.1) := by
-  have heq : ∀ a b : {r : Raw // P r}, decide (a.1 = b.1) = (vercmp a.1 b.1 == .eq) := by
-    intro a b
-    by_cases h : a.1 = b.1
-    · rw [h]; simp [vercmp_self]
-    · have : vercmp a.1 b.1 ≠ .eq := fun e => h (hP _ _ a.2 b.2 e)
-      simp [h, this]
-  refine ⟨fun a b => verOps_lt _ _, fun a b => verOps_gt _ _, ?_, fun a b => verOps_le _ _,
-    fun a b => verOps_ge _ _, ?_⟩
-  · intro a b; simp only [verOps_eq, heq]
-  · intro a b; simp only [verOps_ne, heq]; rfl
-
-/-- pointwise form with a decidable hypothesis -/
-theorem verOps_lawful_at (a b : Raw) (h : vercmp a b = .eq → a = b) :
-    verOps.eq a b = (vercmp a b == .eq) ∧ verOps.ne a b = (vercmp a b != .eq) := by
-  have heq : decide (a = b) = (vercmp a b == .eq) := by
-    by_cases h' : a = b
-    · rw [h']; simp [vercmp_self]
-    · have : vercmp a b ≠ .eq := fun e => h' (h e)
-      simp [h', this]
-  exact ⟨by rw [verOps_eq, heq], by rw [verOps_ne, heq]; rfl⟩
+/-- C02: the six operators of `DebianVersion` are the ones induced by `compare_versions`
+(`==` is no longer textual: `debian.Version.__eq__` is `compare_version_objects(..) == 0`). -/
+theorem verOps_lawful : Lawful verOps vercmp :=
+  ⟨verOps_lt, verOps_gt, verOps_eq, verOps_le, verOps_ge, verOps_ne⟩
 
 /-- `1.0`, i.e. `DebianVersion("1.0").value` -/
 def w10 : Raw := ⟨0, ['1', '.', '0'], ['0']⟩
@@ -418,32 +364,84 @@ theorem vercmp_w10_w100 : vercmp w10 w100 = .eq := by
   rw [vercmp_eq_key]
   simp [w10, w100, key, tokens, keyCmp, lexPair, partCmp, padLex, tokCmp, runCmp, numVal, rankCmp_self]
 
-/-- the hypothesis of `verOps_lawful_partial` is satisfiable (non-trivially) -/
-example : ∀ a b : Raw, a = w10 → b = w10 → vercmp a b = .eq → a = b := by
-  intro a b ha hb _; rw [ha, hb]
-
-/-- C02 fails on all `Raw`: `1.0` and `1.00` are order-equivalent (`compare_versions` = 0,
-`<=` and `>=` hold) yet `==` is False and `!=` is True; so none of `<`, `==`, `>` holds. -/
-theorem verOps_lawful_counterexample : ¬ Lawful verOps vercmp := by
-  intro h
-  have h1 := h.eq w10 w100
-  rw [verOps_eq, vercmp_w10_w100] at h1
-  revert h1; decide
-
-theorem verOps_trichotomy_counterexample :
-    verOps.lt w10 w100 = false ∧ verOps.eq w10 w100 = false ∧ verOps.gt w10 w100 = false ∧
-    verOps.le w10 w100 = true ∧ verOps.ge w10 w100 = true ∧ verOps.ne w10 w100 = true := by
-  simp only [verOps_lt, verOps_gt, verOps_le, verOps_ge, verOps_eq, verOps_ne, vercmp_w10_w100]
-  decide
+/-- the former witness of the `==` defect: `1.0` and `1.00` are now `==` -/
+example : verOps.eq w10 w100 = true ∧ verOps.ne w10 w100 = false ∧ verOps.lt w10 w100 = false := by
+  simp only [verOps_eq, verOps_ne, verOps_lt, vercmp_w10_w100]; decide
 
 /-! ### C12: equal versions have equal hashes -/
 
-theorem eq_imp_hash (a b : Raw) : verOps.eq a b = true → hashKey a = hashKey b := by
-  rw [verOps_eq]; intro h; rw [of_decide_eq_true h]
+theorem tokCmp_eq_snd (x y : Tok) (h : tokCmp x y = .eq) : x.2 = y.2 := by
+  simp only [tokCmp, lexPair, Ordering.then_eq_eq'] at h
+  exact Nat.compare_eq_eq.mp h.2
 
-/-- …but order-equivalent versions (`compare_versions` = 0) have different hash keys -/
-theorem hash_equiv_counterexample : vercmp w10 w100 = .eq ∧ hashKey w10 ≠ hashKey w100 :=
-  ⟨vercmp_w10_w100, by decide⟩
+theorem findNumbers_of_nil {s : List Char} (h : (getNonDigitPrefix s).2 = []) :
+    findNumbers s = [] := by
+  rw [findNumbers]; split
+  · rfl
+  · rename_i h'; rw [h] at h'; cases h'
+
+theorem findNumbers_of_cons {s : List Char} {c : Char} {cs : List Char}
+    (h : (getNonDigitPrefix s).2 = c :: cs) :
+    findNumbers s = (headTok s).2 :: findNumbers (afterRound s) := by
+  rw [findNumbers]; split
+  · rename_i h'; rw [h] at h'; cases h'
+  · rename_i c' cs' h'
+    simp only [headTok, afterRound, h']
+
+theorem dropTrailingZeros_eq (l : List Nat) : dropTrailingZeros l = stripTrail 0 l := by
+  induction l with
+  | nil => rfl
+  | cons x xs ih => simp only [dropTrailingZeros, stripTrail, ih]
+
+/-- the numbers of the tokens are the numbers `re.findall("[0-9]+")` finds, except for a
+possible last `0` standing for "no digits after the last non-digit run" -/
+theorem tokens_numbers_aux (n : Nat) : ∀ s : List Char, s.length ≤ n →
+    stripTrail 0 ((tokens s).map Prod.snd) = stripTrail 0 (findNumbers s) := by
+  induction n with
+  | zero =>
+    intro s h
+    have : s = [] := List.eq_nil_of_length_eq_zero (by omega)
+    subst this
+    rw [tokens_nil, findNumbers_of_nil (by simp [getNonDigitPrefix])]; rfl
+  | succ n ih =>
+    intro s h
+    cases s with
+    | nil => rw [tokens_nil, findNumbers_of_nil (by simp [getNonDigitPrefix])]; rfl
+    | cons c cs =>
+      have hl := afterRound_length_lt c cs
+      rw [tokens_cons]
+      cases hp : (getNonDigitPrefix (c :: cs)).2 with
+      | nil =>
+        have h1 : afterRound (c :: cs) = [] := by
+          simp [afterRound, hp, getDigitPrefix, digitLoop]
+        have h2 : (headTok (c :: cs)).2 = 0 := by
+          simp [headTok, hp, getDigitPrefix, digitLoop]
+        rw [findNumbers_of_nil hp, h1, tokens_nil]
+        simp [stripTrail, h2]
+      | cons d ds =>
+        rw [findNumbers_of_cons hp]
+        simp only [List.map_cons, stripTrail]
+        rw [ih _ (by simp only [List.length_cons] at h hl; omega)]
+
+theorem tokens_numbers (s : List Char) :
+    stripTrail 0 ((tokens s).map Prod.snd) = getSignificantNumbers s := by
+  rw [getSignificantNumbers, dropTrailingZeros_eq]
+  exact tokens_numbers_aux _ s (Nat.le_refl _)
+
+/-- parts that compare equal have the same significant numbers -/
+theorem partCmp_eq_numbers (u v : List Char) (h : partCmp (tokens u) (tokens v) = .eq) :
+    getSignificantNumbers u = getSignificantNumbers v := by
+  rw [← tokens_numbers, ← tokens_numbers]
+  exact padLex_eq_stripTrail (f := Prod.snd) (d := padTok) tokCmp_eq_snd _ _ h
+
+/-- C12, on all `Raw`: versions that are `==` have the same hash key. -/
+theorem eq_imp_hash (a b : Raw) : verOps.eq a b = true → hashKey a = hashKey b := by
+  rw [verOps_eq, vercmp_eq_key]
+  intro h
+  have h : keyCmp (key a) (key b) = .eq := by simpa using h
+  simp only [keyCmp, key, lexPair, Ordering.then_eq_eq'] at h
+  simp only [hashKey, Nat.compare_eq_eq.mp h.1, partCmp_eq_numbers _ _ h.2.1,
+    partCmp_eq_numbers _ _ h.2.2]
 
 /-! ### generic list lemmas -/
 
